@@ -157,7 +157,7 @@ CHECKS = {
               "INCLUDE-following reader as an explicit stack machine over 3 files (INCLUDE by file name -> relative to the current file, "
               "with directories -> relative to the root, by symbol; quoted path split over two lines; cards with continuation lines and "
               "foreign cards around the INCLUDE): TLC checks DeliversExpansion, PrefixSoFar, DepthBound, Terminates on every tree (1330 "
-              "quick / 12103 thorough); every tree is written to disk and read back by rdcards."),
+              "quick / 12103 thorough); every tree is written to disk and read back by rdcards. Growth (spec deviations only): every exported card also in a tab-padded rendering of its fixed-field lines."),
         ref="4/C12",
         note=("Trusted: TLC, fractions.Fraction arithmetic. 'What the width allows' = normalised fixed / exponent forms (moving the "
               "decimal point to save an exponent digit is not demanded). A genuine defect was repaired (values rounding up into a new "
@@ -329,7 +329,7 @@ CHECKS = {
               "previous-value maps for tolerances 0, 0.001, 0.25; UniformUnchanged by TLC; replayed into fixtime and into both helper "
               "variants (vectorised + numba bodies extracted from the tree); unsorted / drop-out / base / packaging laws. area / "
               "interp: 13 slopes (both sides of the s = -1 switch, exactly -3 dB/octave) x 4 ratios against the quadrature of the "
-              "log-log interpolant, additivity, reproduction at own frequencies, end-point round-off, trapezoid cross-check."),
+              "log-log interpolant, additivity, reproduction at own frequencies, end-point round-off, trapezoid cross-check. Growth (spec deviations only): fixtime's outlier-time heuristic as an exact integer 3-sigma rule (part outtimes, 96 records)."),
         ref="4/C19",
         note=("Trusted: TLC, mpmath, generic evaluator. Inside psd.area's |s+1| < 1e-5 switch the s = -1 formula is accepted to "
               "1e-5 ln(f2/f1). fixtime's despiking / outlier-time heuristics are off or cannot trigger. resample's `tnew` positions "
@@ -349,7 +349,8 @@ CHECKS = {
               "system; rbgeom_uset rows (reference = xyz and = grid id) vs the spec rows; blockdiag(G) rb = rbgeom; rbmove; rbcoords; "
               "formrbe3 (three independent-DOF selections with weights; determinate or over-determinate) reproduces rigid motion; "
               "replace_basic_cs preserves distances, relative orientations and rigid-body modes about the moved point; scalar "
-              "points and q-set grids stay zero."),
+              "points and q-set grids stay zero. Growth (spec deviations only): the UM option of formrbe3 (UmLaws: every m-set of two DOF blocks, same constraint as the plain "
+              "element) and the row scanner of find_xyz_triples (ScanLaws: 120 layout words of translation / rotation / foreign rows)."),
         ref="4/C14",
         note=("Trusted: TLC, mpmath (30 digits), generic evaluator. Locations away from the polar singularities (as the statement says). "
               "Quick: 5 (input, output) system pairs per topology; thorough: all 16 pairs twice. One genuine defect repaired "
